@@ -47,22 +47,22 @@ def excName : Exc → String
 
 def count (p : Diag → Bool) (l : List Diag) : Nat := (l.filter p).length
 
-def answer (s : St) : String :=
+def answer (s : St) (diag : List Diag) : String :=
   let status := if s.ub then "ub" else match s.exc with | some e => "err " ++ excName e | none => "ok"
-  let outs := s.diag.filterMap (fun d => match d with | .out m => some s!"m{m}" | _ => none)
-  let verbs := s.diag.filterMap (fun d => match d with | .verbFrame k => some (toString k) | _ => none)
+  let outs := diag.filterMap (fun d => match d with | .out m => some s!"m{m}" | _ => none)
+  let verbs := diag.filterMap (fun d => match d with | .verbFrame k => some (toString k) | _ => none)
   let n := s.threads.length
   let cls := (s.threads.map (·.2.grp)).eraseDups.length
   s!"{status} out=[{"|".intercalate outs}] idle={b (n == 0)} cls={cls} thr={n} vm={n} tim={s.timer.elems.length} ev=0" ++
   s!" cur={b s.cur.isSome} prev={b s.prev.isSome} depth={s.depth} clk={s.now}" ++
-  s!" dbg={count (· == .dbgUpdate) s.diag} warn={count (· == .warn) s.diag} err={count (· == .errPos) s.diag}" ++
+  s!" dbg={count (· == .dbgUpdate) diag} warn={count (· == .warn) diag} err={count (· == .errPos) diag}" ++
   s!" verb=[{".".intercalate verbs}]"
 
 /-- finish a host operation: run to the end, print, clear the per-command observations -/
 def finish (d : DSt) (s : St) : DSt × String :=
-  match runToHalt (env d) fuel s with
-  | some s' => ({ d with s := { s' with diag := [], exc := none } }, answer s')
-  | none => ({ d with s := { s with stack := [], exc := none, diag := [], ub := true } }, "hang")
+  match runToHalt (env d) fuel (s, []) with
+  | some (s', diag) => ({ d with s := { s' with exc := none } }, answer s' diag)
+  | none => ({ d with s := { s with stack := [], exc := none, ub := true } }, "hang")
 
 def step (d : DSt) (t : List String) : DSt × String :=
   if d.s.ub && t != ["c14reset"] then (d, "ub") else
